@@ -32,7 +32,7 @@ func init() {
 			"on a synctest bubble clock and the sequence of latest finalized blocks is checked for descent; a clean batch is evidence, not proof",
 		LevelNote: "order- and history-essential. A nil answer of ComputeFinalizedBlock ('not decidable yet') is accepted whenever the instance lacks a block or a round object the walk needs, and demanded non-nil only with complete local information; " +
 			"every delivered block carries a computed (empty) state so that the shipped GetPreviousBlock can link it locally; block fetching from peers is not available (no fetch worker: the request times out on the bubble clock). " +
-			"Blocks of one round come from distinct generators, so the round keeps all of them (C35). The finalize path runs with a sim-provided BlockStateHandler/ViewChanger on a miner-type node.Self; " +
+			"Most rounds hold blocks of distinct generators (the round keeps all of them); a share of rounds (cfg ptwin) holds two blocks of the SAME RoundRank with different hashes - equivocation, or a round restarted after a timeout whose new seed gives that rank to another miner - with both branches extended and notarized in the next round; there the round keeps one of the pair (C35), so the reference takes the round's own notarized list as the input set. The finalize path runs with a sim-provided BlockStateHandler/ViewChanger on a miner-type node.Self; " +
 			"state is the real MPT over a per-instance PNodeDB on the simulated disk, with no transactions",
 		Technique: "deterministic simulation: seeded delivery orders of seeded block trees into real chain instances; reference deepest-common-ancestor on the simulator's tree; real finalize workers on fake time",
 		DesignRef: "6/C36", Regime: "single-threaded event loop inside a synctest bubble (one instance's worker goroutines run to quiescence per step)",
@@ -44,7 +44,8 @@ func init() {
 		},
 		Assumptions: []string{
 			"a block's parent lies exactly one round earlier (the trees are built that way; the lockstep walk of the shipped code relies on it)",
-			"all blocks of one round carry the same round random seed and distinct generators",
+			"blocks of one round carry the same round random seed and distinct generators, except the deliberate same-rank pairs (equivocation / round restart with timeout count 1)",
+			"the set of notarized blocks of a round is read from the round object itself (what it keeps is C35's subject); everything derived from it is computed on the simulator's tree",
 			"'latest round that has any' is searched in (lfb round, given round], as the caller of ComputeFinalizedBlock does",
 		},
 	})
